@@ -37,6 +37,7 @@ type c16Job struct {
 }
 
 type c16Env struct {
+	workers int
 	pool    *verif.Pool
 	t0      time.Time
 	jobs    []*c16Job
@@ -74,31 +75,85 @@ func (e *c16Env) send(j *c16Job) {
 	}})
 }
 
-// quiesce waits until the pool shows nothing pending; reports the stuck state.
+// quiesce waits until nothing is pending, soundly: it sends one barrier job per worker; when all
+// barrier jobs run at once no worker can hold any other job (not even one it has received but not
+// started), and the pool's own state, read under its list mutex at that moment, must show an empty
+// deferred list, no flusher and an empty channel. The stuck state (deferred jobs, no flusher, no
+// Send in progress) is reported.
 func (e *c16Env) quiesce(c *rt.CaseResult, replay map[string]any) bool {
-	var st verif.PoolState
+	workers := e.workers
+	if workers < 1 {
+		workers = 1
+	}
 	stuckSeen := 0
-	for i := 0; i < 4000; i++ {
-		st = e.pool.VerifState()
+	t0 := time.Now()
+	for iter := 0; iter < 400; iter++ {
+		st := e.pool.VerifState()
 		if st.Deferred > 0 && !st.FlusherActive {
-			// under listM: jobs in the deferred list and nobody to flush them.
-			// Look twice more (a Send that is just starting the flusher holds listM while doing so,
-			// so this state cannot be a transient of a deferred Send).
 			stuckSeen++
 			if stuckSeen >= 3 {
 				replay["pool_state"] = fmt.Sprintf("%+v", st)
 				c.Violate("stuck-deferred-jobs deferred>0 flusher-gone", fmt.Sprintf("%d job(s) sit in the deferred list while no flusher is active and no Send is in progress: they run only if a later Send happens to take the deferred path", st.Deferred), replay)
 				return false
 			}
-		} else {
-			stuckSeen = 0
+			time.Sleep(500 * time.Microsecond)
+			continue
 		}
-		if st.Deferred == 0 && !st.FlusherActive && st.ChanLen == 0 && e.running.Load() == 0 {
+		stuckSeen = 0
+		if st.Deferred > 0 || st.FlusherActive || st.ChanLen > 0 {
+			// jobs are still moving: do not push barrier jobs on top of them (the deferred list is
+			// last-in-first-out, barrier jobs would overtake and starve them); look again shortly
+			time.Sleep(200 * time.Microsecond)
+			if iter < 399 {
+				iter-- // only barrier rounds count against the limit; the wall-clock guard below bounds this loop
+			}
+			if time.Since(t0) > 60*time.Second {
+				c.Inconclusive = append(c.Inconclusive, fmt.Sprintf("pool still busy after 60 s: %+v", st))
+				return false
+			}
+			continue
+		}
+		var started, finished sync.WaitGroup
+		started.Add(workers)
+		finished.Add(workers)
+		release := make(chan struct{})
+		for i := 0; i < workers; i++ {
+			e.pool.Send(context.Background(), verif.PoolEvent{Caller: "verif.barrier", Fn: func(context.Context) error {
+				started.Done()
+				<-release
+				finished.Done()
+				return nil
+			}})
+		}
+		ok := make(chan struct{})
+		go func() { started.Wait(); close(ok) }()
+		select {
+		case <-ok:
+		case <-time.After(20 * time.Second):
+			st = e.pool.VerifState()
+			close(release)
+			if st.Deferred > 0 && !st.FlusherActive {
+				replay["pool_state"] = fmt.Sprintf("%+v", st)
+				c.Violate("stuck-deferred-jobs deferred>0 flusher-gone", fmt.Sprintf("%d job(s) (among them barrier jobs) sit in the deferred list while no flusher is active", st.Deferred), replay)
+				return false
+			}
+			c.Inconclusive = append(c.Inconclusive, fmt.Sprintf("barrier jobs did not all start: %+v", st))
+			return false
+		}
+		// all workers are held by barrier jobs: the only thing that can still move is a flusher
+		// that is about to find the list empty (possibly the one that delivered the barrier jobs)
+		st = e.pool.VerifState()
+		for w := 0; w < 200 && st.FlusherActive && st.Deferred == 0 && st.ChanLen == 0; w++ {
+			time.Sleep(100 * time.Microsecond)
+			st = e.pool.VerifState()
+		}
+		close(release)
+		finished.Wait()
+		if st.Deferred == 0 && !st.FlusherActive && st.ChanLen == 0 {
 			return true
 		}
-		time.Sleep(500 * time.Microsecond)
 	}
-	c.Inconclusive = append(c.Inconclusive, fmt.Sprintf("pool did not become quiescent: %+v running=%d", st, e.running.Load()))
+	c.Inconclusive = append(c.Inconclusive, fmt.Sprintf("pool did not become quiescent: last state %+v", e.pool.VerifState()))
 	return false
 }
 
@@ -121,7 +176,7 @@ func c16Burst(tier string, seed int64, idx int, scratch string) rt.CaseResult {
 	rng := seqrun.Rng(seed, "C16", idx)
 	workers := 1 + rng.Intn(4)
 	sd := []time.Duration{1, time.Microsecond, 50 * time.Microsecond, time.Millisecond}[rng.Intn(4)]
-	e := &c16Env{pool: verif.NewPool(verif.PoolOptions{NumWorkers: workers, SendDuration: sd}), t0: time.Now()}
+	e := &c16Env{workers: workers, pool: verif.NewPool(verif.PoolOptions{NumWorkers: workers, SendDuration: sd}), t0: time.Now()}
 	tr := conc.NewTracer(false)
 	tr.Perturb(30, 200, uint64(seed)*17+uint64(idx))
 	tr.Install()
@@ -185,7 +240,7 @@ func c16Burst(tier string, seed int64, idx int, scratch string) rt.CaseResult {
 
 func c16Window(tier string, seed int64, idx int, scratch string) rt.CaseResult {
 	var c rt.CaseResult
-	e := &c16Env{pool: verif.NewPool(verif.PoolOptions{NumWorkers: 1, SendDuration: time.Microsecond}), t0: time.Now()}
+	e := &c16Env{workers: 1, pool: verif.NewPool(verif.PoolOptions{NumWorkers: 1, SendDuration: time.Microsecond}), t0: time.Now()}
 	tr := conc.NewTracer(true)
 	tr.Install()
 	defer conc.Uninstall()
